@@ -86,7 +86,8 @@ STATE_PAIRS = [
 # modules that stress one mechanism on their own (always part of a sweep family, and preferred for its symmetric
 # two-thread runs): early locals shadowing late builtins, folding, f-strings, hoisting, builtin-heavy code
 SOLO_SPECIAL = ['api/a60_shadow_builtins_first.py', 'api/a61_builtin_heavy.py', 'api/a13_folding.py', 'api/a12_fstring.py',
-                'api/a10_hoist.py', 'api/a66_nested_fstrings.py', 'api/a29_builtins.py', 'api/a43_config_mixed.py']
+                'api/a10_hoist.py', 'api/a66_nested_fstrings.py', 'api/a29_builtins.py', 'api/a43_config_mixed.py',
+                'api/a68_global_statement_multi.py', 'api/a17_closures.py']
 
 NAME_POOL = [
     'helper', 'other', 'foo', 'bar', 'value', 'result', 'item', 'T', 'U', 'K', 'Item', 'Rest', 'Params',
